@@ -19,7 +19,7 @@ VARIABLES shape, adds, under, bins, over
 vars == <<shape, adds, under, bins, over>>
 
 \* shape: [kind |-> "lin", min, max, nbins, unit, xs]   values are integers / unit; (max-min) % nbins may be # 0
-\*        [kind |-> "log", b, m, nbins, xs]             xs: integers >= 1, or 0 standing for the value 1/2
+\*        [kind |-> "log", b, m, nbins, xs]             xs: integers (negative ones lie below the range like every x < 1), 0 standing for the value 1/2
 RECURSIVE IPow(_,_)
 IPow(a, e) == IF e = 0 THEN 1 ELSE a * IPow(a, e - 1)
 
@@ -88,14 +88,14 @@ ShapesQuick == {
   [kind |-> "lin", min |-> -32, max |-> 32,  nbins |-> 8, unit |-> 8, xs |-> <<-40, -33, -32, -31, -8, -1, 0, 7, 31, 32>>],
   [kind |-> "lin", min |-> 0,   max |-> 80,  nbins |-> 3, unit |-> 8, xs |-> <<-27, -1, 0, 26, 27, 53, 54, 79, 81, 107>>],
   [kind |-> "lin", min |-> 5,   max |-> 6,   nbins |-> 1, unit |-> 1, xs |-> <<4, 5, 6, 7>>],
-  [kind |-> "log", b |-> 2,  m |-> 1, nbins |-> 4, xs |-> <<0, 1, 2, 3, 4, 7, 8, 15, 16, 40>>],
-  [kind |-> "log", b |-> 10, m |-> 2, nbins |-> 4, xs |-> <<0, 1, 3, 4, 9, 10, 31, 32, 99, 100, 101>>],
+  [kind |-> "log", b |-> 2,  m |-> 1, nbins |-> 4, xs |-> <<-40, -2, -1, 0, 1, 2, 3, 4, 7, 8, 15, 16, 40>>],
+  [kind |-> "log", b |-> 10, m |-> 2, nbins |-> 4, xs |-> <<-100, -3, 0, 1, 3, 4, 9, 10, 31, 32, 99, 100, 101>>],
   [kind |-> "log", b |-> 3,  m |-> 3, nbins |-> 6, xs |-> <<0, 1, 2, 3, 4, 5, 6, 8, 9, 10>>] }
 ShapesThorough == ShapesQuick \cup {
   [kind |-> "lin", min |-> -7,  max |-> 93,  nbins |-> 50, unit |-> 1, xs |-> <<-9, -8, -7, -6, -5, 0, 1, 91, 92, 93, 94>>],
   [kind |-> "lin", min |-> 3,   max |-> 24,  nbins |-> 7,  unit |-> 4, xs |-> <<0, 2, 3, 5, 6, 8, 9, 23, 24, 26>>],
   [kind |-> "lin", min |-> 0,   max |-> 10,  nbins |-> 10, unit |-> 16, xs |-> <<-1, 0, 1, 2, 3, 9, 10, 11, 12>>],
   [kind |-> "log", b |-> 5,  m |-> 4, nbins |-> 8, xs |-> <<0, 1, 2, 3, 4, 5, 6, 12, 24, 25, 26>>],
-  [kind |-> "log", b |-> 7,  m |-> 1, nbins |-> 2, xs |-> <<0, 1, 6, 7, 8, 48, 49, 50>>],
+  [kind |-> "log", b |-> 7,  m |-> 1, nbins |-> 2, xs |-> <<-49, -7, -1, 0, 1, 6, 7, 8, 48, 49, 50>>],
   [kind |-> "log", b |-> 2,  m |-> 4, nbins |-> 12, xs |-> <<0, 1, 2, 3, 5, 7, 8, 9, 11>>] }
 =============================================================================
